@@ -4,6 +4,7 @@
 -/
 import Rpki.Proofs.ManifestLemmas
 import Rpki.Proofs.UriRsync2
+import Rpki.Model.CmsDer
 namespace Rpki.Props.C14
 open Rpki.Der Rpki.Manifest
 
@@ -104,6 +105,39 @@ theorem resolved_is_valid (base v : Uri.Rsync) (n : Bytes) (hb : base.Inv) (hn :
 theorem hashVerify_iff (digest : Bytes → Bytes) (hash data : Bytes) :
     hashVerify digest hash data = true ↔ hash = digest data := by
   unfold hashVerify; simp
+
+/-! ### the same for a whole manifest object on octets
+
+`CmsDer.decodeTyped "mft"` is `Manifest::decode` in strict mode (tied by the `cmsd` operations): the CMS
+envelope, the embedded certificate, the signed attributes and the content.  Every manifest object it
+accepts — whatever the octets — has the properties above. -/
+
+theorem manifest_object_octets (b : Bytes) (o : CmsDer.SigObjD) (base : Uri.Rsync)
+    (h : CmsDer.decodeTyped "mft" b = some o) :
+    ∃ m es us, decodeContent o.content = some m ∧
+      m.iter = some es ∧ es.length = m.len ∧ (∀ e ∈ es, validName e.name = true) ∧
+      civilKey m.thisUpdate ≤ civilKey m.nextUpdate ∧
+      iterUris m base = some us ∧ us.length = m.len ∧ (∀ e ∈ es, 47 ∉ e.name) := by
+  unfold CmsDer.decodeTyped at h
+  cases hd : CmsDer.decodeSigObj b with
+  | none => simp [hd] at h
+  | some o' =>
+    simp only [hd] at h
+    have e1 : ("mft" = "roa") = False := by decide
+    have e2 : ("mft" = "aspa") = False := by decide
+    simp only [e1, e2, if_false, if_true] at h
+    split at h
+    · rename_i hc
+      injection h with h; subst h
+      cases hm : decodeContent o'.content with
+      | none => rw [hm] at hc; simp at hc
+      | some m =>
+        obtain ⟨es, h1, h2, h3⟩ := len_eq_iter _ m hm
+        obtain ⟨es', us, g1, g2, g3, _, g5⟩ := iterUris_inside _ m base hm
+        have : es' = es := by rw [h1] at g1; injection g1 with g1; exact g1.symm
+        subst this
+        exact ⟨m, es', us, rfl, h1, h2, h3, times_ordered _ m hm, g2, g3, g5⟩
+    · cases h
 
 /-! ### non-vacuity -/
 
